@@ -343,12 +343,7 @@ Qed.
 Hint Resolve SI_visit_custom_gate : si.
 
 Lemma SI_visit_external_gate n a q i : SI (visit_external_gate check_only visit_rec call_rec n a q i).
-Proof.
-  unfold visit_external_gate.
-  apply SI_bind; [si|intros s0]. apply SI_bind; [si|intros count]. apply SI_bind; [si|intros params].
-  eapply (SI_open (pushc CGate) popc); [apply SIp_modify; sg_close| |apply popc_pushc].
-  intros _. sip.
-Qed.
+Proof. unfold visit_external_gate. si. Qed.
 Hint Resolve SI_visit_external_gate : si.
 
 Lemma SI_collapse_mods ms : forall p i, SI (collapse_mods call_rec ms p i).
